@@ -26,6 +26,7 @@ pub enum Family {
     SigReencode,
     BitFlipPairs,
     FooterRespell,
+    SigRange,
 }
 impl Family {
     fn name(self) -> &'static str {
@@ -41,6 +42,7 @@ impl Family {
             Family::SigReencode => "7-sig-reencode",
             Family::BitFlipPairs => "8-bitflip-pairs",
             Family::FooterRespell => "9-footer-respelled",
+            Family::SigRange => "10-signature-value-range",
         }
     }
 }
@@ -389,6 +391,105 @@ pub fn mutants(fam: Family, proto: Proto, t: &str, others: &[String]) -> Vec<Str
                 _ => {}
             }
         }
+        Family::SigRange => {
+            // the signature / tag replaced by values at the edges of what its encoding can hold: zero, one, the
+            // group order and its neighbours, the field prime, all ones - values no bit flip of an honest
+            // signature reaches (the top half of the P-384 order is all ones)
+            let d = &p.decoded;
+            let tail = proto.tail_len();
+            if d.len() >= tail {
+                let body = &d[..d.len() - tail];
+                let be = |hex: &str, width: usize| -> Vec<u8> {
+                    let v = b64::unhex(hex).unwrap();
+                    let mut o = vec![0u8; width - v.len()];
+                    o.extend_from_slice(&v);
+                    o
+                };
+                let add1_be = |v: &[u8]| -> Vec<u8> {
+                    let mut o = v.to_vec();
+                    for i in (0..o.len()).rev() {
+                        o[i] = o[i].wrapping_add(1);
+                        if o[i] != 0 {
+                            break;
+                        }
+                    }
+                    o
+                };
+                let sub1_be = |v: &[u8]| -> Vec<u8> {
+                    let mut o = v.to_vec();
+                    for i in (0..o.len()).rev() {
+                        o[i] = o[i].wrapping_sub(1);
+                        if o[i] != 0xff {
+                            break;
+                        }
+                    }
+                    o
+                };
+                let mut sigs: Vec<Vec<u8>> = vec![vec![0u8; tail], vec![0xffu8; tail]];
+                match proto {
+                    Proto::V3P => {
+                        let n = be(P384_N, 48);
+                        let field_p = be("fffffffffffffffffffffffffffffffffffffffffffffffffffffffffffffffeffffffff0000000000000000ffffffff", 48);
+                        let mut one = vec![0u8; 48];
+                        one[47] = 1;
+                        let specials = [vec![0u8; 48], one, sub1_be(&n), n.clone(), add1_be(&n), field_p, vec![0xffu8; 48]];
+                        let (r, sv) = (&d[d.len() - 96..d.len() - 48], &d[d.len() - 48..]);
+                        for x in &specials {
+                            sigs.push([x.as_slice(), sv].concat());
+                            sigs.push([r, x.as_slice()].concat());
+                        }
+                        sigs.push([specials[3].as_slice(), specials[3].as_slice()].concat());
+                    }
+                    Proto::V2P | Proto::V4P => {
+                        let l = b64::unhex(ED_L_LE).unwrap();
+                        let le_small = |x: u8| {
+                            let mut v = vec![0u8; 32];
+                            v[0] = x;
+                            v
+                        };
+                        let mut l_minus = l.clone();
+                        l_minus[0] -= 1;
+                        let mut two_252 = vec![0u8; 32];
+                        two_252[31] = 0x10;
+                        let mut two_253 = vec![0u8; 32];
+                        two_253[31] = 0x20;
+                        let s_specials = [le_small(0), le_small(1), l_minus, l.clone(), le_add(&l, &le_small(1)), two_252, two_253, vec![0xffu8; 32]];
+                        // R: the identity, a point of order two, y = p (non-canonical zero), all ones, zero
+                        let mut identity = vec![0u8; 32];
+                        identity[0] = 1;
+                        let mut order2 = vec![0xffu8; 32];
+                        order2[0] = 0xec;
+                        order2[31] = 0x7f;
+                        let mut y_is_p = vec![0xffu8; 32];
+                        y_is_p[0] = 0xed;
+                        y_is_p[31] = 0x7f;
+                        let r_specials = [vec![0u8; 32], identity, order2, y_is_p, vec![0xffu8; 32]];
+                        let (r, sv) = (&d[d.len() - 64..d.len() - 32], &d[d.len() - 32..]);
+                        for x in &s_specials {
+                            sigs.push([r, x.as_slice()].concat());
+                        }
+                        for x in &r_specials {
+                            sigs.push([x.as_slice(), sv].concat());
+                            sigs.push([x.as_slice(), s_specials[0].as_slice()].concat());
+                        }
+                    }
+                    Proto::V1P => {
+                        let mut one = vec![0u8; tail];
+                        one[tail - 1] = 1;
+                        let mut top = vec![0u8; tail];
+                        top[0] = 0x80;
+                        sigs.push(one);
+                        sigs.push(top);
+                    }
+                    _ => {}
+                }
+                for sg in sigs {
+                    if sg.as_slice() != &d[d.len() - tail..] {
+                        out.push(reassemble(&p, &[body, sg.as_slice()].concat()));
+                    }
+                }
+            }
+        }
         Family::BitFlipPairs => {
             let bits = p.decoded.len() * 8;
             for i in 0..bits {
@@ -481,7 +582,7 @@ fn check_mutant(base: &Base, fam: Family, mutant: &str, layer: Layer, acc: &mut 
     // the small families are presented a second time straight away: a rejection must be repeatable (a failed
     // attempt must not leave anything behind that lets the same text through afterwards)
     let mut fam_name = fam.name().to_string();
-    if matches!(verdict, Judgement::Pass) && obs.is_err() && matches!(fam, Family::BitFlip | Family::Splice | Family::NonCanonical | Family::SigReencode | Family::FooterRespell | Family::BoundaryShift) {
+    if matches!(verdict, Judgement::Pass) && obs.is_err() && matches!(fam, Family::BitFlip | Family::Splice | Family::NonCanonical | Family::SigReencode | Family::FooterRespell | Family::BoundaryShift | Family::SigRange) {
         let (obs2, calls2) = pres.present();
         acc.executions += 1;
         acc.impl_calls += 1;
@@ -521,6 +622,7 @@ pub fn run(tier: &str) -> i32 {
         Family::NonCanonical,
         Family::SigReencode,
         Family::FooterRespell,
+        Family::SigRange,
     ];
     if !quick {
         fams.push(Family::BitFlipPairs);
@@ -541,7 +643,7 @@ pub fn run(tier: &str) -> i32 {
                 // the U+FFFD-footer base exists for the footer families; the big text-edit families already
                 // run on the two other bases
                 let fffd_base = bs[bi].case.footer.as_deref().map_or(false, |f| f.contains('\u{fffd}'));
-                if fffd_base && !matches!(f, Family::FooterRespell | Family::NonCanonical | Family::Splice | Family::BoundaryShift | Family::Prefix) {
+                if fffd_base && !matches!(f, Family::FooterRespell | Family::NonCanonical | Family::Splice | Family::BoundaryShift | Family::Prefix | Family::SigRange) {
                     continue;
                 }
                 for l in Layer::ALL {
